@@ -40,7 +40,8 @@ GoodCorrection(ev) ==
     /\ r.pre_uuid = ev.src_uuid /\ r.pre_type = ev.src_type /\ r.pre_series = ev.src_series
     /\ r.pre_code = ev.src_code /\ r.pre_date = ev.src_date
     /\ r.pre_reason = (IF ev.combo.reason THEN "verif reason" ELSE "")
-    /\ SetOf(ev.req_ext) \subseteq SetOf(r.pre_ext)
+    \* the requested extensions are kept: on the preceding row, or (an addon may move them) on the correction's own tax object
+    /\ SetOf(ev.req_ext) \subseteq SetOf(r.pre_ext) \cup SetOf(r.tax_ext)
     /\ Stamps(ev.defs) \subseteq SetOf(r.pre_stamps)
     \* the stamps carried over are the source's or the request's, value for value
     /\ SetOf(r.pre_stamp_vals) \subseteq SetOf(ev.req_stamp_vals) \cup SetOf(ev.src_stamp_vals)
